@@ -134,8 +134,9 @@ theorem obsTr (h : LockU c s t) (m : Memo) : ObsTr c s t m :=
 end LockU
 
 theorem inv_lockU {P idOf c s t} (hI : Inv P idOf s) (h : LockU c s t) : Inv P idOf t := by
-  have hS : memoSok s c → ∀ d, atR c d → depInfo t d = depInfo s d ∧ (sokDep s d → sokDep t d) :=
-    fun _ d _ => ⟨h.depInfo_eq d, h.sokDep_fwd⟩
+  have hS : memoSok s c → ∀ d, atR c d →
+      (∀ x, depInfo s d = some x → ∃ x', depInfo t d = some x' ∧ x'.ca ≤ x.ca) ∧ (sokDep s d → sokDep t d) :=
+    fun _ d _ => ⟨fun x hx => ⟨x, by rw [h.depInfo_eq d]; exact hx, Nat.le_refl _⟩, h.sokDep_fwd⟩
   refine inv_upd hI h.upd h.updR (h.panic.trans hI.pn) hS (fun q m _ _ => h.obsTr m) ?_ ?_ ?_ ?_ ?_ ?_
   · intro m hm
     rw [h.memos] at hm
@@ -156,7 +157,8 @@ theorem inv_lockU {P idOf c s t} (hI : Inv P idOf s) (h : LockU c s t) : Inv P i
     refine ⟨?_, ?_, ok.noh, ok.hgen, ok.dshape⟩
     · intro ho
       obtain ⟨h1, h2⟩ := ok.derived ho
-      exact ⟨obsOk_upd h.upd h.updR hI h1 (fun _ o _ _ _ => h.depInfo_eq o.dep)
+      exact ⟨obsOk_upd h.upd h.updR hI h1
+        (fun _ o _ _ _ x hx => ⟨x, by rw [h.depInfo_eq o.dep]; exact hx, Nat.le_refl _⟩)
         (fun _ _ _ _ _ _ a => h.obsAt a), h2⟩
     · intro k hk
       obtain ⟨h1, h2, h3, h4, h5, h6⟩ := ok.assigned k hk
